@@ -19,6 +19,8 @@ MODELS: Dict[str, pathlib.Path] = {
     "bytes": VERIF / "models" / "c11_bytes.py",
     # a diamond whose root constrains a property and whose sides and bottom tighten it (length, pattern, set)
     "diamond": VERIF / "models" / "c02_diamond_tighten.py",
+    # list properties of every shape (required / optional x primitive, bytes, constrained primitive, enumeration, class)
+    "shapes": VERIF / "models" / "c29_shapes.py",
     # nesting of operators (parentheses in the transpiled expression): of interest to C08 only ("verification-only:")
     "verification-only:operators": VERIF / "models" / "c08_operators.py",
     # models which the front end may legitimately REJECT (then there is nothing to compare); if it accepts them, the
